@@ -2482,7 +2482,11 @@ class Attribute(object):
             if new_dbval is not None: reverse.db_set(new_dbval, obj, True)
         elif isinstance(reverse, Set):
             if old_dbval not in (None, NOT_LOADED): reverse.db_reverse_remove((old_dbval,), obj)
-            if new_dbval is not None: reverse.db_reverse_add((new_dbval,), obj)
+            if new_dbval is not None:
+                try: reverse.db_reverse_add((new_dbval,), obj)
+                except UnrepeatableReadError:  # the old value stays in effect: its collection has to keep the object
+                    if old_dbval not in (None, NOT_LOADED): old_dbval._vals_[reverse].add(obj)
+                    raise
         else: throw(NotImplementedError)
     def __delete__(attr, obj):
         throw(NotImplementedError)
